@@ -30,3 +30,61 @@ type Named struct {
 type Emb struct {
 	EX int32 `frugal:"78,default,i32"`
 }
+
+// NamedStr / NamedBytes: named string and byte-slice types (e.g. type TraceID string).
+type NamedStr string
+type NamedBytes []byte
+
+// DP is a recursive type with a PARTIAL default initialiser (as generated code has: only
+// fields that declare a default are assigned) including a non-nil container default.
+type DP struct {
+	A     int32         `frugal:"1,optional,i32"`
+	B     string        `frugal:"2,optional,string"`
+	C     *string       `frugal:"3,optional,string"`
+	L     []int32       `frugal:"4,optional,list<i32>"`
+	Kids  []*DP         `frugal:"5,optional,list<DP>"`
+	Next  *DP           `frugal:"6,optional,DP"`
+	ByVal map[string]DP `frugal:"7,optional,map<string:DP>"`
+	Vals  []DP          `frugal:"8,optional,list<DP>"`
+}
+
+func (p *DP) InitDefault() {
+	p.A = 5
+	p.L = []int32{1, 2}
+}
+
+// DPOuter reaches DP from a different top-level type.
+type DPOuter struct {
+	P *DP           `frugal:"1,optional,DP"`
+	M map[int32]*DP `frugal:"2,optional,map<i32:DP>"`
+}
+
+// RWide is recursive AND wide: 24 variable-size fields precede the link to the next level.
+type RWide struct {
+	F01  string   `frugal:"1,optional,string"`
+	F02  string   `frugal:"2,optional,string"`
+	F03  string   `frugal:"3,optional,string"`
+	F04  string   `frugal:"4,optional,string"`
+	F05  string   `frugal:"5,optional,string"`
+	F06  string   `frugal:"6,optional,string"`
+	F07  string   `frugal:"7,optional,string"`
+	F08  string   `frugal:"8,optional,string"`
+	F09  string   `frugal:"9,optional,string"`
+	F10  string   `frugal:"10,optional,string"`
+	F11  string   `frugal:"11,optional,string"`
+	F12  string   `frugal:"12,optional,string"`
+	F13  []int32  `frugal:"13,optional,list<i32>"`
+	F14  []int32  `frugal:"14,optional,list<i32>"`
+	F15  []string `frugal:"15,optional,list<string>"`
+	F16  []byte   `frugal:"16,optional,binary"`
+	F17  string   `frugal:"17,optional,string"`
+	F18  string   `frugal:"18,optional,string"`
+	F19  string   `frugal:"19,optional,string"`
+	F20  string   `frugal:"20,optional,string"`
+	F21  string   `frugal:"21,optional,string"`
+	F22  string   `frugal:"22,optional,string"`
+	F23  string   `frugal:"23,optional,string"`
+	F24  string   `frugal:"24,optional,string"`
+	Next *RWide   `frugal:"30,optional,RWide"`
+	Tail string   `frugal:"31,optional,string"`
+}
